@@ -169,7 +169,7 @@ class ProgGen:
                 choices += ["index"] * 2
             if self.visible(pred=lambda v: v.type.startswith("list[") and (v.frozen or self.h("stale-len"))):
                 choices += ["len"]
-            choices += ["lenlit", "bitop"]
+            choices += ["lenlit", "bitop", "boolsum"]
             if self.h("pow"):
                 choices += ["pow"] * 2
             if self.h("andor"):
@@ -181,6 +181,13 @@ class ProgGen:
             return self.int_lit()
         if c == "var":
             return r.choice(vars_).name
+        if c == "boolsum":
+            # arithmetic on truth values is integer arithmetic (True + True == 2)
+            self.feat("bool+bool")
+            bs = self.visible("bool")
+            a = r.choice(bs).name if bs and self.chance(0.5) else self.e_bool(d + 2)
+            b = r.choice(bs).name if bs and self.chance(0.5) else self.e_bool(d + 2)
+            return f"(({a}) + ({b}))" if self.chance(0.7) else f"((({a}) + ({b})) * {r.randint(2, 9)})"
         if c == "add":
             self.feat("int+")
             return f"({self.e_int(d + 1)} + {self.e_int(d + 1)})"
@@ -234,6 +241,10 @@ class ProgGen:
             return f"len({v.name})"
         if c == "lenlit":
             self.feat("len(lit)")
+            if self.chance(0.4):
+                # characters that need escaping in the C++ literal count once
+                self.feat("len(lit-with-escapes)")
+                return "len(" + r.choice(['\'say "hi"\'', '"C:\\\\temp"', '\'a"b\'', '"tab\\\\t"', '\'""\'', '"q\\"q"']) + ")"
             return f"len({self.str_lit()})"
         if c == "pow":
             self.feat("hz:pow")
@@ -470,6 +481,8 @@ class ProgGen:
         choices += ["tuple_new", "tuple_update"]
         if depth < 3 and not self.in_main_loop:
             choices += ["loop_reset"]
+        if self.use_lists and not self.in_main_loop and not self.in_function and depth < 2:
+            choices += ["len_loop"]
         if self.in_main_loop and depth == 1:
             choices += ["loop_local"] * 2
         if len(self.visible()) >= 2:
@@ -753,6 +766,34 @@ class ProgGen:
             # (a `for` variable read after its loop is not declared in the generated C++: known finding, not generated here)
             self.declare(iv, "int", ro=True)
         self.declare(name, t)
+
+    def s_len_loop(self, depth):
+        """A list whose length is only known at run time, walked with `for i in range(len(xs))`; expressions on the counter
+        go negative (the counter is an ordinary signed integer)."""
+        self.feat("range(len(runtime-list))")
+        n = self.fresh("n")
+        xs = self.fresh("xs")
+        i = self.fresh("k")
+        ints = [v for v in self.visible("int")]
+        src = f"abs({self.r.choice(ints).name}) % 3 + 2" if ints else str(self.r.randint(2, 4))
+        self.emit(f"{n} = {src}")
+        self.emit(f"{xs} = [q * {self.r.randint(1, 3)} for q in range({n})]")
+        self.emit(f"for {i} in range(len({xs})):")
+        self.ind += 1
+        self.emit(f"mon.write({i} - {self.r.randint(2, 5)})")
+        form = self.r.choice(["fstr", "cmp", "abs", "idx"])
+        if form == "fstr":
+            self.emit(f'mon.write(f"d{{{i} - 1}}e")')
+        elif form == "cmp":
+            self.emit(f"if {i} - 1 < 0:")
+            self.emit(f'    mon.write("first")')
+        elif form == "abs":
+            self.emit(f"mon.write(abs({i} - 3) + min({i} - 2, 0))")
+        else:
+            self.emit(f"mon.write({xs}[{i}] + {i})")
+        self.ind -= 1
+        self.obs += 2
+        self.declare(n, "int", ro=True)
 
     def s_loop_local(self, depth):
         """Directly in the `while True:` body: a name first assigned there from a literal, changed later in the same pass
@@ -1082,6 +1123,27 @@ class ProgGen:
             self.stmt(1)
         if ret is None and len(self.lines) == body_start:
             self.emit("pass")
+        if ret is not None and self.chance(0.3):
+            # an if/elif/else chain whose first and last arms leave the function while a middle arm falls through:
+            # everything after the chain is still reachable
+            self.feat("exit-chain-with-fallthrough")
+            self.emit(f"if {self.e_bool(1)}:")
+            self.ind += 1
+            self.emit(f"return {self.expr(ret, 1)}")
+            self.ind -= 1
+            self.emit(f"elif {self.e_bool(1)}:")
+            self.ind += 1
+            if pure:
+                self.emit("pass")
+            else:
+                self.emit(f"mon.write({self.str_lit()})")
+            self.ind -= 1
+            self.emit("else:")
+            self.ind += 1
+            self.emit(f"return {self.expr(ret, 1)}")
+            self.ind -= 1
+            if not pure:
+                self.emit(f"mon.write({self.str_lit()})")
         if ret is not None:
             if self.chance(0.4):
                 self.feat("multi-return")
